@@ -7,6 +7,9 @@
 (*         otherwise the returned (coef, intercept) is a stationary point  *)
 (*         of 1/2 (deviance + alpha |w|^2): every gradient component       *)
 (*         (enclosed by interval arithmetic, Glm.tla) reaches 0.           *)
+(*         Targets may be measured in a unit 2^ue (log link): the relation *)
+(*         is evaluated on the unit-1 quantities and rescaled by           *)
+(*         2^(ue (2 - p)) (GlmStationaryU).                                *)
 (*   mu  : predictions equal h(x . w + b), are finite and inside the       *)
 (*         link's range.                                                   *)
 (* Solver failures: for the convex, everywhere defined configurations      *)
@@ -39,7 +42,6 @@ TraceInit ==
 HasEv(name) == e <= Len(Case.ev) /\ Ev.ev = name
 Adv == e' = e + 1 /\ UNCHANGED <<c, g>>
 
-Allow == 6
 WMax == 50000000
 
 P == In.p
@@ -53,8 +55,14 @@ Convex == \/ (Lk = "identity" /\ In.pn = 0)
 
 ShapeOk == /\ FitEv.sane /\ Len(FitEv.w6) = P
            /\ \A j \in 1..P : Abs(FitEv.w6[j]) <= WMax
-DomainOk == GlmDomainOk(Lk, In.pn, In.x, FitEv.w6, FitEv.b6)
-Stat == GlmStationary(Lk, In.pn, In.pd, In.x, TYS, FitEv.w6, FitEv.b6, In.an, In.ad, In.icpt, Allow)
+\* unit of the targets: y = 2^ue * (In.y / In.yd); ue # 0 only with the log link and an intercept (see Glm.tla)
+UE == In.ue
+RECURSIVE Pow10(_)
+Pow10(kk) == IF kk <= 0 THEN 1 ELSE 10 * Pow10(kk - 1)
+TolU == Pow10(4 - In.te)                       \* solver tolerance 10^-te in units of 10^-4 (at least one unit)
+UnitOk == UE # 0 => (Lk = "log" /\ In.icpt)
+DomainOk == GlmDomainOkU(Lk, In.pn, In.x, FitEv.w6, FitEv.b6, UE)
+Stat == GlmStationaryU(Lk, In.pn, In.pd, In.x, TYS, FitEv.w6, FitEv.b6, In.an, In.ad, In.icpt, 5, TolU, UE)
 
 Why ==
   IF Ev.ev = "fit" THEN
@@ -72,7 +80,7 @@ Dead == e' = Len(Case.ev) + 2 /\ UNCHANGED <<c, g>>
 FitClause ==
   IF ~Supported THEN ~Ev.ok /\ Ev.err = "InvalidTargetRange"   \* rejected with the documented error, before any fitting
   ELSE IF Ev.ok THEN                                          \* a stationary point
-         /\ ShapeOk
+         /\ ShapeOk /\ UnitOk
          /\ IF DomainOk THEN Stat
             ELSE ~Convex /\ PrintT(<<"NOTE", Case.id, "outside the modelled range">>)   \* no verdict (see header)
   ELSE ~Convex /\ Ev.err \in {"Argmin", "TIMEOUT"}            \* no result (see header)
@@ -85,7 +93,7 @@ MuClause ==
   /\ Ev.fin /\ Len(Ev.m4) = Len(Rows) /\ Len(Ev.mk) = Len(Rows)
   /\ \A r \in 1..Len(Rows) :
        /\ InLinkRange(Lk, Ev.mk[r])
-       /\ EtaInDomain(Lk, 0, ZIv(Rows[r], FitEv.w6, FitEv.b6)) => GlmPredOk(Lk, Rows[r], FitEv.w6, FitEv.b6, Ev.m4[r])
+       /\ EtaInDomain(Lk, 0, ZIvU(Rows[r], FitEv.w6, FitEv.b6, UE)) => GlmPredOkU(Lk, Rows[r], FitEv.w6, FitEv.b6, UE, Ev.m4[r])
 TMu ==
   /\ HasEv("mu") /\ e = 2
   /\ IF MuClause THEN Adv ELSE Fail(Case.id, ToString(e) \o " " \o Ev.ev \o ": " \o Why) /\ Dead
